@@ -486,8 +486,17 @@ type SpecDB struct {
 	StateFns  map[string]*StateFn
 	GlobalFacts map[string][]SExpr
 	GlobalInits []*GlobalInit
+	MethodSets  []*MethodSetDecl
 	Defines map[string]*PredDef // spec functions with a definition, also emitted as SMT define-fun
 	DefineOrder []string
+}
+
+// MethodSetDecl pins the complete method set of a pointer type.
+type MethodSetDecl struct {
+	Pkg, Type string
+	Methods   []string
+	Props     []string
+	Src       string
 }
 
 type GlobalInit struct {
@@ -730,6 +739,24 @@ func (db *SpecDB) LoadSpecFile(path, pkgPath string, trusted bool) error {
 				}
 			}
 			db.SpecFns[name] = &SpecFn{Name: name, Params: ps, Result: strings.TrimSpace(rest[k+1:])}
+		case "methodset":
+			// methodset (*T) m1, m2 [tags] : the complete method set of *T.
+			// Callers that dispatch on optional interfaces (io.Copy looks for
+			// WriterTo / ReaderFrom) get exactly the methods under contract.
+			body, tags := splitTags(rest)
+			body = strings.TrimSpace(body)
+			k := strings.Index(body, ")")
+			if !strings.HasPrefix(body, "(*") || k < 0 {
+				return fail(fmt.Errorf("methodset (*T) m1, m2"))
+			}
+			ms := &MethodSetDecl{Pkg: pkgPath, Type: body[2:k], Props: tags, Src: src}
+			for _, m := range strings.Split(body[k+1:], ",") {
+				if m = strings.TrimSpace(m); m != "" {
+					ms.Methods = append(ms.Methods, m)
+				}
+			}
+			sort.Strings(ms.Methods)
+			db.MethodSets = append(db.MethodSets, ms)
 		case "global":
 			// global Name init "literal" [tags]  : the package initialiser
 			// assigns exactly this literal (checked on the SSA of init)
